@@ -41,6 +41,10 @@ func main() {
 		freshMain(os.Args[2:])
 		return
 	}
+	if os.Args[1] == "hist-worker" {
+		histWorkerMain(os.Args[2:])
+		return
+	}
 	if os.Args[1] == "hist-entry" {
 		histEntryMain(os.Args[2:])
 		return
